@@ -43,7 +43,7 @@ CTX = [("int", dict(type="int", size=None, nullable=True, default=None)),
 POS = ["S", "T", "C1", "C2", "C3", "K1", "K2", "K3", "RS", "RT", "RC", "IX", "K4", "Q", "TY", "D", "IK"]
 BASE = {"S": "sc", "T": "tb", "C1": "ca", "C2": "cb", "C3": "cc", "K1": "ka", "K2": "kb", "K3": "kc", "RS": "rs", "RT": "rt", "RC": "rc",
         "IX": "ix", "K4": "kd", "Q": "sq", "TY": "ty", "D": "dm", "IK": "ik"}
-FORMS = ["lower", "Mixed", "UPPER", "x_1", "dq", "bt", "br", "dq_us", "br_us", "dq_sp", "dq_nest", "bt_dbl", "br_dbl", "bt_dash", "arr", "Arr", "ARR", "dq_dot", "kw", "hash", "hash2", "br_sp", "bt_sp"]
+FORMS = ["lower", "Mixed", "UPPER", "x_1", "dq", "bt", "br", "dq_us", "br_us", "dq_sp", "dq_nest", "bt_dbl", "br_dbl", "bt_dash", "arr", "Arr", "ARR", "dq_dot", "kw", "hash", "hash2", "br_sp", "bt_sp", "br_edge", "bt_edge"]
 # a keyword-shaped plain name per naming position (after a dot inside parentheses the word must still be a name)
 KWFORM = {"C1": "order", "C2": "key2", "C3": "set", "K1": "check1", "K2": "unique1", "K3": "foreign1", "RT": "comment",
           "RC": "order", "IX": "index1", "K4": "default1", "Q": "cache", "TY": "tag", "D": "map", "IK": "key1"}
@@ -96,6 +96,8 @@ def form(name, f):
             # plain names that begin with the word ARRAY (a type keyword the lexer tests by prefix), and a quoted name containing a dot
             "kw": KWFORM.get(_POS_OF.get(name), name), "hash": "#" + name.capitalize(), "hash2": "##" + name,
             # bracket / backtick names that contain a blank (SQL Server's [Order Details]): known finding
+            # the (doubled) delimiter as the LAST characters of the inner text: [Amount[USD]]], `x```
+            "br_edge": "[%s[x]]]" % name.capitalize(), "bt_edge": "`%s```" % name.capitalize(),
             "br_sp": "[%s %s]" % (name.capitalize(), name), "bt_sp": "`%s %s`" % (name.capitalize(), name), "arr": "array_" + name, "ARR": "ARRAY_" + name.upper(), "Arr": "Arrays" + name.capitalize(), "dq_dot": '"%s.%s"' % (name, name)}[f]
 
 
@@ -265,7 +267,7 @@ def features(case):
     f = []
     if case["kind"] == "id":
         for p, fm in case["assign"].items():
-            if fm in ("dq", "bt", "br", "dq_us", "br_us", "dq_sp", "bt_dbl", "br_dbl", "bt_dash", "dq_dot"):
+            if fm in ("dq", "bt", "br", "dq_us", "br_us", "dq_sp", "bt_dbl", "br_dbl", "bt_dash", "dq_dot", "br_edge", "bt_edge"):
                 f.append("delimited:" + p)
             if fm in ("dq_nest", "bt_nest"):
                 f.append("delimited:nested-delimiters")
